@@ -745,7 +745,7 @@ func isolation() {
 
 func main() {
 	w = hc.Start("C18")
-	w.R.Rule = "draw histories: BFS depth 4 (5) on the real SimulationScreen in UTF-8, ISO8859-1 and US-ASCII over a wide-rune/style/fallback alphabet on 4x1 and a SetSize/cursor/lock alphabet on 3x2; after every Show/Sync GetContents must equal the shadow model shared with C01 (Runes, resolved Style, Bytes = charset encoding with fallback then '?'), GetCursor must reflect ShowCursor, SetSize must keep the overlapping region and produce exactly one EventResize with the new size by the next Show at the latest; injection: every printable character (BMP; thorough to U+2FFFF) of each of the 24 stateless charsets through InjectKeyBytes alone, all 2- and 3-character texts over up to 6 representatives per charset (every encoded length, multi-byte last included), and all sequences up to 3 of InjectKey/InjectMouse/InjectKeyBytes calls, compared with what PollEvent delivers. distinct_nontrivial = multi-byte characters injected + inject sequences + canonical draw states"
+	w.R.Rule = "draw histories: BFS depth 4 (5) on the real SimulationScreen in UTF-8, ISO8859-1 and US-ASCII over a wide-rune/style/fallback alphabet (combining lists with a control character, a C1 control and a non-character included) on 4x1 and a SetSize/cursor/lock alphabet on 3x2; after every Show/Sync GetContents must equal the shadow model shared with C01 (Runes, resolved Style, Bytes = charset encoding with fallback then '?'), GetCursor must reflect ShowCursor, SetSize must keep the overlapping region and produce exactly one EventResize with the new size by the next Show at the latest; injection: every printable character (BMP; thorough to U+2FFFF) of each of the 24 stateless charsets through InjectKeyBytes alone, all 2- and 3-character texts over up to 6 representatives per charset (every encoded length, multi-byte last included), and all sequences up to 3 of InjectKey/InjectMouse/InjectKeyBytes calls, compared with what PollEvent delivers. distinct_nontrivial = multi-byte characters injected + inject sequences + canonical draw states"
 	w.R.Assumptions = []string{"cells covered by a wide rune, locked cells and trailing padding of Bytes are not compared", "after SetSize the cursor may be reset (as implemented) or keep the earlier request: the statement fixes neither", "x/text codecs define the charsets"}
 	if *hc.Replay != "" {
 		fmt.Println("replay: the history is in the replay file; re-run ./vc C18")
